@@ -81,6 +81,22 @@ def check(facts, res):
                 st = (c.self_ty or "") + " " + (c.full or "")
                 crate_iter = any((x[4] is not None and x[4].impl_self and facts.body(x[1]) is not None and facts.body(x[1]).in_repo() and
                                   callee_name(x) == "next") for x in chain)
+                # `successors(Some(rev), |r| tree.get_parent(r))` is the parent walk written as an iterator: it ends where the loop form
+                # ends (each step moves to the recorded parent, whose index is smaller: R5c)
+                succ_walk = False
+                if (names & UNBOUNDED) == {"successors"}:
+                    for x in chain:
+                        if callee_name(x) == "successors" and len(x[2]) >= 2:
+                            cl = [y for y in walk(x[2][1]) if y[0] == "closure"]
+                            cbs = facts.body(cl[0][1]) if cl else None
+                            if cbs is not None:
+                                rt_ = du_of(cbs).local_term(0, 14)
+                                gpc = [y for y in walk(rt_) if y[0] == "call" and callee_name(y) == "get_parent" and y[4] is not None and "revisiontree::" in y[4].target()]
+                                succ_walk = bool(gpc) and all(any(z[0] == "param" and z[1] == 2 for z in walk(g[2][1])) for g in gpc if len(g[2]) > 1)
+                if succ_walk:
+                    n_loops["parent-walk"] += 1
+                    res.instance("R5", "%s: parent walk written as successors(.., |r| get_parent(r)): every step moves to the recorded parent" % b.path, b.loc(t.line))
+                    continue
                 if (names & UNBOUNDED) or "RangeFrom" in st or "iter::Repeat" in st or "iter::FromFn" in st or "iter::Successors" in st or crate_iter:
                     res.violation("R5", "%s|unbounded-iteration" % b.path,
                                   "%s loops over an iterator that has no end by construction (%s): the operation may never return" % (
